@@ -147,22 +147,37 @@ def probe_embed(name, D, N, order, seed):
         # documented symbol: a_0 enters as D*a_0, so the 1-D counterpart carries D*a_0
         "GeneralPolynomialStepper": lambda d: gen.GeneralPolynomialStepper(
             d, L, N, dt, linear_coefficients=(0.3 * (D / d), 0.0, nu), polynomial_coefficients=(0.0, 0.0, -0.3), order=order),
-    }[name]
-    sD, s1 = mk(D), mk(1)
+    }.get(name)
+    # anisotropic coefficients (full symmetric positive matrix diffusivity, vector velocity / dispersivity): along axis a
+    # the 1-D counterpart carries A[a, a] resp. v[a] — off-diagonal entries only act on states varying along two axes
+    A = np.array([[0.05, 0.02, -0.01], [0.02, 0.03, 0.015], [-0.01, 0.015, 0.04]])[:D, :D]
+    vv = np.array([0.6, -0.4, 0.9])[:D]
+    aniso = {
+        "Diffusion(matrix)": (lambda: st.Diffusion(D, L, N, dt, diffusivity=jnp.asarray(A)), lambda a: st.Diffusion(1, L, N, dt, diffusivity=float(A[a, a]))),
+        "AdvectionDiffusion(vector,matrix)": (lambda: st.AdvectionDiffusion(D, L, N, dt, velocity=jnp.asarray(vv), diffusivity=jnp.asarray(A)),
+                                              lambda a: st.AdvectionDiffusion(1, L, N, dt, velocity=float(vv[a]), diffusivity=float(A[a, a]))),
+        "Advection(vector)": (lambda: st.Advection(D, L, N, dt, velocity=jnp.asarray(vv)), lambda a: st.Advection(1, L, N, dt, velocity=float(vv[a]))),
+        "Dispersion(vector)": (lambda: st.Dispersion(D, L, N, dt, dispersivity=jnp.asarray(vv)), lambda a: st.Dispersion(1, L, N, dt, dispersivity=float(vv[a]))),
+    }.get(name)
+    if aniso is not None:
+        sD, s1_of = aniso[0](), aniso[1]
+    else:
+        sD, s1c = mk(D), mk(1)
+        s1_of = lambda a: s1c
     u1 = rng.normal(size=(1, N))
-    if name == "Dispersion" and N % 2 == 0:
+    if ("Dispersion" in name or "Advection" in name) and N % 2 == 0:
         from .c15 import bandlimited
         u1, _ = bandlimited(rng, 1, 1, N, (N - 1) // 2)
-    want1 = np.asarray(s1(jnp.asarray(u1)))[0]
-    worst = 0.0
+    worst, sc = 0.0, 1e-300
     for ax in range(D):
+        want1 = np.asarray(s1_of(ax)(jnp.asarray(u1)))[0]
         shape = [1] * D
         shape[ax] = N
         uD = np.broadcast_to(u1[0].reshape(shape), (N,) * D)[None].copy()
         got = np.asarray(sD(jnp.asarray(uD)))[0]
         want = np.broadcast_to(want1.reshape(shape), (N,) * D)
         worst = max(worst, float(np.max(np.abs(got - want))))
-    sc = float(np.max(np.abs(want1))) + 1e-300
+        sc = max(sc, float(np.max(np.abs(want1))))
     return {"ok": bool(worst <= 1e-9 * sc), "err": worst, "scale": sc}
 
 
@@ -239,10 +254,11 @@ def oracle(ctx, deep):
                 if not r["ok"]:
                     fails.append({"key": f"C08:perm:{name}", "what": f"{name} (D={D}, N={N}) does not commute with axis permutations: {r}",
                                   "probe": "perm", "args": {"name": name, "D": D, "N": N, "order": order, "seed": ctx.seed}, "observed": r})
-    for name in ["Burgers(single)", "KuramotoSivashinsky", "AllenCahn", "Diffusion", "Dispersion", "GeneralPolynomialStepper"]:
+    for name in ["Burgers(single)", "KuramotoSivashinsky", "AllenCahn", "Diffusion", "Dispersion", "GeneralPolynomialStepper",
+                 "Diffusion(matrix)", "AdvectionDiffusion(vector,matrix)", "Advection(vector)", "Dispersion(vector)"]:
         for D in (2, 3):
             N = 8 if D == 2 else 6
-            order = 0 if name in ("Diffusion", "Dispersion") else 2
+            order = 0 if ("Diffusion" in name or "Dispersion" in name or "Advection" in name) else 2
             r = probe_embed(name, D, N, order, ctx.seed)
             ctx.count(("oracle_embed", name, D))
             if not r["ok"]:
